@@ -14,6 +14,8 @@ Prog_pcalls  == [main |-> <<O("new", 0), O("sched", 1), O("tick", 0), O("calls",
 \* the scheduler is destroyed while the handle is still alive (the queue's reference goes first)
 Prog_stopdel == [main |-> <<O("new", 0), O("sched", 1), O("tick", 0), O("stop", 0), O("del", 1)>>]
 Cfg_pool2    == [k \in {1} |-> C(1, 1, 2, TRUE, FALSE, 0)]
+\* due at once, two runs, the first returns false: the second kick-off races with the wrapper's `func = {}`
+Cfg_false2   == [k \in {1} |-> C(0, 0, 2, FALSE, FALSE, 1)]
 
 \* ---- quick 1: ImmediateInvoker (runs on the scheduler thread / on the creating thread)
 HInit1 ==
@@ -26,12 +28,13 @@ HInit1 ==
 
 \* ---- quick 2: pool with one worker
 HInit2 ==
-  \/ HInitWith(Cfg_false3, Prog_pool, {"w0"})   \* functor returns false on a pool thread: the wrapper clears func
+  \/ HInitWith(Cfg_false2, Prog_pool, {"w0"})   \* functor returns false on a pool thread: the wrapper clears func
   \/ HInitWith(Cfg_pool2, Prog_pcalls, {"w0"})  \* calls() and destructor racing with runs on the pool thread
 
-\* ---- thorough: pool, three runs (second returns false), cancel, calls, destructor; detached on a pool;
+\* ---- thorough: three runs due at once (first returns false); pool, three runs (second returns false), cancel, calls, destructor; detached on a pool;
 \*      two tasks (pool + inline) created by two threads
 HInit3 ==
+  \/ HInitWith(Cfg_false3, Prog_pool, {"w0"})
   \/ HInitWith(Cfg_pool3, Prog_poolcan, {"w0"})
   \/ HInitWith(Cfg_pool3, Prog_pooldet, {"w0"})
 HInit4 == HInitWith(Cfg_two, Prog_two, {"w0"})
